@@ -65,10 +65,10 @@ func (g *Gen) MixinDoc(ids *idPool) M {
 		g.hit("mixin:externalDocs")
 	}
 	if g.p(0.4) {
-		d["host"] = g.pick([]string{"h1", "h2"})
+		d["host"] = g.pick([]string{"h1", "h2", "localhost"})
 	}
 	if g.p(0.4) {
-		d["basePath"] = g.pick([]string{"/v1", "/v2"})
+		d["basePath"] = g.pick([]string{"/v1", "/v2", "/"})
 	}
 	for _, k := range []string{"x-r1", "x-r2", "x-r3", "X-R1", "x-Rate-Limit", "X-Rate-Limit"} {
 		if g.p(0.3) {
@@ -144,7 +144,7 @@ func (g *Gen) MixinDoc(ids *idPool) M {
 						// ids: unique within the document, from a small pool so that documents collide
 						for tries := 0; tries < 20; tries++ {
 							// (ids that end in Mixin<N> while their stem "list" is no id anywhere: within the premise of C18)
-							id := g.pick([]string{"getA", "getB", "listPets", "x", "delPet", "opt", "createThing", "listMixin0", "listMixin1", "get%dItems", "50%off"})
+							id := g.pick([]string{"getA", "getB", "listPets", "x", "delPet", "opt", "createThing", "listMixin0", "listMixin1", "get%dItems", "50%off", "GET /a", "POST /b"})
 							if !ids.used[id] {
 								ids.used[id] = true
 								op["operationId"] = id
